@@ -575,6 +575,121 @@ def run(rep, facts):
     rep.floor("R12.5", "Pending edges of transport polls in poll-style functions", npend, 5)
 
 
+def check_results_inspected_on_every_path(rep, facts):
+    """R12.8: path-sensitive form of R12.2. A Result / Poll<Result> value carrying an io::Error or parser::Error that a call of the async layer
+    produced (or that was moved out of such a value) is *pending* until it is inspected -- matched, tested, borrowed, propagated with `?`,
+    returned or passed on. On no path may a pending value die: be dropped, go out of storage or be overwritten. (R12.2 only asks for an
+    inspection somewhere in the function; a result kept in a local and inspected on one branch but abandoned on another passes R12.2.)"""
+    rep.rule("R12.8", "on every path, an io::Error- / parser::Error-carrying Result produced in the async layer is inspected (matched, tested, borrowed, `?`, returned, passed on) "
+                      "before it is dropped, goes out of storage or is overwritten")
+    n_locals = 0
+    for b in facts.bodies:
+        if not (b.npath.startswith("async_io::") or b.npath.startswith("<async_io::")) or b.promoted:
+            continue
+
+        def cand(li):
+            ty = b.locals[li]["ty"]["s"]
+            return li != 0 and (ty.startswith("std::result::Result<") or ty.startswith("std::task::Poll<std::result::Result<")) and error_type(ty)
+        cands = set(li for li in range(len(b.locals)) if cand(li))
+        if not cands:
+            continue
+        found = {}
+
+        def transfer(bi, pend, report):
+            blk = b.blocks[bi]
+            pend = set(pend)
+
+            def use(op):
+                pl = op.get("move") or op.get("copy")
+                if pl is not None:
+                    pend.discard(pl["l"])
+
+            def die(li, how, sp):
+                if li in pend:
+                    pend.discard(li)
+                    if report and not (sp or {}).get("n"):
+                        found.setdefault((li, how), sp)
+            for st in blk["st"]:
+                if st["k"] == "dead":
+                    die(st.get("l", st.get("place", {}).get("l") if isinstance(st.get("place"), dict) else None), "goes out of storage", st.get("sp"))
+                    continue
+                if st["k"] != "assign":
+                    continue
+                rv = st["rv"]
+                gen = False
+                if rv["k"] in ("use", "cast"):
+                    pl = rv["op"].get("move") or rv["op"].get("copy")
+                    if pl is not None and pl["l"] in cands:
+                        gen = True
+                    use(rv["op"])
+                elif rv["k"] == "un":
+                    use(rv["a"])
+                elif rv["k"] in ("ref", "discr", "rawptr"):
+                    pend.discard(rv["place"]["l"])
+                elif rv["k"] == "agg":
+                    for o in rv["ops"]:
+                        use(o)
+                elif rv["k"] == "bin":
+                    use(rv["a"])
+                    use(rv["b"])
+                d = st["place"]
+                if "p" not in d and d["l"] in cands:
+                    die(d["l"], "is overwritten", st.get("sp"))
+                    if gen:
+                        pend.add(d["l"])
+            t = blk["t"]
+            if t["k"] == "call":
+                for a in t["args"]:
+                    use(a)
+                d = t["dest"]
+                if "p" not in d and d["l"] in cands:
+                    die(d["l"], "is overwritten", t.get("sp"))
+                    pend.add(d["l"])
+            elif t["k"] == "switch":
+                use(t["discr"])
+            elif t["k"] == "yield":
+                use(t["value"])
+            elif t["k"] == "drop":
+                if "p" not in t["place"]:
+                    die(t["place"]["l"], "is dropped", t.get("sp"))
+            return frozenset(pend)
+        succs = [b.succs(i) for i in range(len(b.blocks))]
+        IN = {0: frozenset()}
+        work = [0]
+        while work:
+            bi = work.pop()
+            out = transfer(bi, IN[bi], False)
+            for s_ in succs[bi]:
+                if b.blocks[s_].get("cleanup"):
+                    continue
+                old = IN.get(s_)
+                new_ = out if old is None else (old | out)
+                if new_ != old:
+                    IN[s_] = new_
+                    work.append(s_)
+        for bi in IN:
+            transfer(bi, IN[bi], True)
+        fn = b.npath.split("::{closure")[0]
+        for li in sorted(cands):
+            defined = any((blk["t"]["k"] == "call" and "p" not in blk["t"]["dest"] and blk["t"]["dest"]["l"] == li) or
+                          any(st["k"] == "assign" and "p" not in st["place"] and st["place"]["l"] == li for st in blk["st"])
+                          for blk in b.blocks if not blk.get("cleanup"))
+            if not defined:
+                continue
+            n_locals += 1
+            bad = [(how, sp) for (l2, how), sp in found.items() if l2 == li]
+            name = b.local_name(li)
+            key = "%s/inspected-on-every-path[%s]" % (fn, name if not name.startswith("_") else "tmp")
+            if bad:
+                how, sp = bad[0]
+                rep.violation("R12.8", key, "a %s-carrying Result %s on a path on which it was never inspected: the error is lost and the task carries on" % (error_type(b.locals[li]["ty"]["s"]), how),
+                              "%s:%d" % (sp["f"], sp["l"]) if sp else b.npath)
+            else:
+                rep.ok("R12.8", key, "inspected before it dies on every path", b.npath)
+    rep.floor("R12.8", "error-carrying Result locals in async_io", n_locals, 15)
+    return n_locals
+
+
 def run_parser_totality(rep, facts):
     """R12.7: "terminates without panicking" when the input stops at any byte position: the connection task hands whatever the transport
     delivered to the two parsers, so every prefix of a record stream is parser input; that the framing code never slices, splits, indexes,
@@ -600,6 +715,7 @@ def main(rep, tier):
     rep.configs.append({"features": "async,http", "profile": "debug", "bodies": len(f.bodies)})
     check.guard(rep, "R12", run, f)
     check.guard(rep, "R12.7", run_parser_totality, f)
+    check.guard(rep, "R12.8", check_results_inspected_on_every_path, f)
     return rep.finish(
         "Path rules over the interprocedural event graph of the connection task and of the poll-style APIs: EOF (zero-length read) and "
         "WriteZero checks guard every use of a transport byte count, errors are propagated or explicitly tolerated, no I/O follows an "
